@@ -29,7 +29,7 @@ RULE = ("histories of 1-10 ops on one connection: client queries (ids from a 4-e
         "and after completion, 6 names incl. IDN, names select the addon policy pass/respond/error), upstream replies "
         "(to any earlier forwarded query, unsolicited id, duplicate), malformed client frames (zero length prefix, garbage "
         "message), closes; upstream ok|connect-failure|none; UDP and TCP; TCP streams delivered message-aligned, coalesced, "
-        "cut at generated positions, and (1/6 of TCP cases) at every single position; non-trivial = history contains an "
+        "cut at generated positions, and (1/10 of TCP cases) at every single position of the first stream (<= 100); non-trivial = history contains an "
         "unsolicited/duplicate reply, a reused id, or a cut inside a 2-byte length prefix; distinct by history")
 ASSUMPTIONS = [
     "hooks complete immediately (the addon policy is a pure function of the question name)",
@@ -39,7 +39,7 @@ ASSUMPTIONS = [
 LEVEL_TEXT = ("generated op-sequence search with a reference model of which replies may reach the client, plus metamorphic "
               "comparison of segmentations of the same TCP byte streams")
 LEVEL_NOTE = "trusts lib/driver.py, lib/ref_dns.py and Hypothesis' search"
-QUICK_N, THOROUGH_N = 120_000, 4_000_000
+QUICK_N, THOROUGH_N = 80_000, 4_000_000
 BUDGET_S = (150, 5400)
 
 IDS = [1, 2, 0xC00C, 65535]
@@ -81,7 +81,7 @@ def gen_history(b: bytes):
         else:
             ops.append(["q", s.pick(IDS), s.below(2), 1, 1, 0])
             nq += 1
-    mode = s.pick(["cuts", "cuts", "coalesce", "all", "cuts", "aligned"]) if tr == "tcp" else "aligned"
+    mode = s.pick(["cuts", "cuts", "coalesce", "cuts", "aligned", "cuts", "coalesce", "cuts", "cuts", "all"]) if tr == "tcp" else "aligned"
     cuts = [[s.u16() for _ in range(s.below(4))] for _ in range(4)] if mode == "cuts" else []
     return {"tr": tr, "up": upstream, "ops": ops, "mode": mode, "cuts": cuts}
 
@@ -115,6 +115,7 @@ class Obs:
         self.closed_client = False
         self.crashed = None
         self.problems = []   # (bucket, msg) found while running (hook invariants)
+        self.overlapped = set()  # ids for which a query arrived while an earlier query with that id was unanswered
 
     def summary(self):
         return (self.hooks, [R.decode(m).key() if _dec_ok(m) else m for m in self.to_server],
@@ -151,10 +152,19 @@ def run_history(case, mode, cuts, single_cut=None):
     obs = Obs()
     sent_queries = []  # model: (id, qkey) of every well-formed query delivered to the proxy so far
 
+    pending = set()
+
     def hook_policy(hook):
         f = hook.flow
         req = getattr(f, "request", None)
         rk = None
+        if req is not None:
+            if hook.name == "dns_request":
+                if req.id in pending:
+                    obs.overlapped.add(req.id)
+                pending.add(req.id)
+            else:
+                pending.discard(req.id)
         if req is None:
             obs.problems.append(("hook-flow-without-request:" + hook.name, "the DNSFlow passed to %s has no request" % hook.name))
         else:
@@ -346,7 +356,7 @@ def check_case(case, ctx):
                 ctx.fail("hook-flow-foreign-request:%s:%s" % (name, idc(rk[0])), "[%s] flow.request %r was never sent by the client" % (label, rk))
             if name == "dns_response" and rk is not None and pk is not None:
                 if (pk[0][0], pk[1]) != rk:
-                    ctx.fail("hook-response-mismatch:%s" % idc(rk[0]),
+                    ctx.fail("hook-response-mismatch:%s" % (idc(rk[0]) + ("-outstanding" if rk[0] in o.overlapped else "")),
                              "[%s] dns_response flow carries request %r but response id/question %r" % (label, rk, (pk[0][0], pk[1])))
         for m in o.to_client:
             try:
@@ -438,7 +448,7 @@ def check_case(case, ctx):
             while k < len(events) and events[k][0] == events[0][0] and events[0][0] in ("c", "s"):
                 first += events[k][1]
                 k += 1
-            for p in range(0, min(len(first), 160) + 1):
+            for p in range(0, min(len(first), 100) + 1):
                 runs.append(("cut@%d" % p, run_history(case, "all", [], single_cut=p)[0]))
             cut_in_prefix = len(first) > 1
         else:
